@@ -84,7 +84,7 @@ func freeBehaviour(rng *rand.Rand, n, length, cat int) []jAct {
 	}
 	acts = append(acts, jAct{Op: "new", List: first})
 	for len(acts) < length {
-		switch x := rng.Intn(20); {
+		switch x := rng.Intn(23); {
 		case x < 8:
 			t := "A"
 			if curB && rng.Intn(2) == 0 {
@@ -148,6 +148,12 @@ func freeBehaviour(rng *rand.Rand, n, length, cat int) []jAct {
 				acts = append(acts, jAct{Op: "drop"})
 				curB = false
 			}
+		case x >= 20: // persist-and-reload of either holder
+			t := "A"
+			if curB && rng.Intn(2) == 0 {
+				t = "B"
+			}
+			acts = append(acts, jAct{Op: "reload", T: t})
 		default:
 			var l []jVal
 			switch rng.Intn(4) {
